@@ -305,6 +305,9 @@ func runC18(c *Case) {
 					}
 					if chance(r, 30) {
 						op.Kw["publish_options"] = map[string]any{"exclude_authrole": []any{pick(r, authRoles)}}
+					} else if chance(r, 15) {
+						// the testament is to be published in payload passthru mode (the realm's meta session publishes it)
+						op.Kw["publish_options"] = map[string]any{"ppt_scheme": "x_custom", "ppt_serializer": "native", "ppt_keyid": "k"}
 					}
 				} else {
 					op.URI = "wamp.session.flush_testaments"
